@@ -320,6 +320,39 @@ func repoDir() string {
 	return "/repo"
 }
 
+// tenDictXML: a (pathological) application dictionary whose repeating group NoPartyIDs(453) lists CheckSum(10) as a member.
+// Under it the well-formed message 35=D 453=1 448=a 10=… parses, but parseGroup takes 10= for a group member, runs out of fields, and
+// doParsing ends on the field parsed last: the trailer has no CheckSum (Lean: ten_swallowed / C11_checksum_member_swallowed).
+const tenDictXML = `<fix major='4' type='FIX' servicepack='0' minor='2'>
+ <header>
+  <field name='BeginString' required='Y' />
+  <field name='BodyLength' required='Y' />
+  <field name='MsgType' required='Y' />
+ </header>
+ <messages>
+  <message name='NewOrderSingle' msgcat='app' msgtype='D'>
+   <group name='NoPartyIDs' required='N'>
+    <field name='PartyID' required='N' />
+    <field name='CheckSum' required='N' />
+   </group>
+  </message>
+ </messages>
+ <trailer>
+  <field name='CheckSum' required='Y' />
+ </trailer>
+ <components>
+ </components>
+ <fields>
+  <field number='8' name='BeginString' type='STRING' />
+  <field number='9' name='BodyLength' type='INT' />
+  <field number='10' name='CheckSum' type='STRING' />
+  <field number='35' name='MsgType' type='STRING' />
+  <field number='448' name='PartyID' type='STRING' />
+  <field number='453' name='NoPartyIDs' type='INT' />
+ </fields>
+</fix>
+`
+
 // custom (user-defined) transport tags: not in Tag.IsHeader()/IsTrailer(), known to a "+c" transport dictionary only
 const customHeaderTag, customTrailerTag = 10030, 5050
 
@@ -330,7 +363,18 @@ func dict(id string) *datadictionary.DataDictionary {
 		return d
 	}
 	base := strings.TrimSuffix(id, "+c")
-	d, err := datadictionary.Parse(filepath.Join(repoDir(), "spec", base+".xml"))
+	path := filepath.Join(repoDir(), "spec", base+".xml")
+	if base == "@TEN" { // the witness dictionary of C11_checksum_member_swallowed: group 453 lists CheckSum as a member
+		f, ferr := os.CreateTemp("", "ten*.xml")
+		if ferr != nil {
+			panic(ferr)
+		}
+		f.WriteString(tenDictXML)
+		f.Close()
+		defer os.Remove(f.Name())
+		path = f.Name()
+	}
+	d, err := datadictionary.Parse(path)
 	if err != nil {
 		panic("cannot load dictionary " + id + ": " + err.Error())
 	}
